@@ -256,7 +256,7 @@ def _huffman_wide(ctx, exe):
     chunk = 500
     for lo in range(0, len(trace), chunk):
         vlib.write_ndjson(path, trace[lo:lo + chunk])
-        res = vlib.tlc("huffman", "TraceHuffman", cfg="TraceHuffman.cfg", workers=1, env={"TRACE": path}, timeout=1500)
+        res = vlib.tlc("huffman", "TraceHuffman", cfg="TraceHuffman.cfg", workers=1, timeout=1500, env={"TRACE": path})
         vlib.tlc_must_hold(res, "TraceHuffman evaluation")
         ctx.add_tlc("TraceHuffman[%d..%d]" % (lo, lo + len(trace[lo:lo + chunk])), res)
         for v in res.records:
@@ -311,12 +311,9 @@ def _marcus(ctx, exe):
     results, crashes = vlib.run_items(exe, items)
     for i, r in enumerate(vecs):
         ctx.count()
+        cls = ("field:" if r["fr"] != 0 else "zero-field:") + r["c"]
         if r["lo"] != 0:
-            cls = "outer-reorg"
-        elif r["fr"] != 0:
-            cls = "field:" + r["c"]
-        else:
-            cls = "zero-field:" + r["c"]
+            cls = "outer-reorg:" + cls
         if r["eq"] and (r["lo"] != 0 or r["fr"] != 0):
             ctx.nontriv(("marcus", r["c"], r["lnratio"], r["lo"], r["fr"], r["n1"], r["x1"], r["n2"], r["x2"]))
         if i in crashes:
@@ -360,7 +357,13 @@ def _wait(ctx, exe):
             ctx.violation("KMC:waiting-time:crash", "Promotetime failed on %s: %s" % (r, crashes.get(i) or _exc(results[i])), r)
             continue
         dt = float(_line(results[i][0], "dt")[0])
-        if not (dt >= 0.0 and math.isfinite(dt) and vlib.close(dt * r["m"] / LN2, r["ln2units"], 1e-12, 1e-12)):
+        # inverse transform with u = 1-r (the code's choice; expectation from TLC) or with u = r (equally
+        # exponential for r in (0,1), but ln 0 at r = 0): both admitted, the result must be finite
+        raw = r["raw"] / float(2 ** r["K"])
+        alt = -math.log2(raw) if raw > 0 else float("inf")
+        ok = dt >= 0.0 and math.isfinite(dt) and (vlib.close(dt * r["m"] / LN2, r["ln2units"], 1e-12, 1e-12)
+                                                  or vlib.close(dt * r["m"] / LN2, alt, 1e-12, 1e-12))
+        if not ok:
             ctx.violation("KMC:waiting-time", "dt*k_tot = %r, expected %d*ln2 for uniform variate 1-2^-%d, k_tot=%d"
                           % (dt * r["m"], r["ln2units"], r["j"], r["m"]), r)
         ch = _line(results[i][2], "sel")
